@@ -124,7 +124,7 @@ func damagesOf(c []byte, thorough bool, rng *RNG) []damage {
 	var out []damage
 	n := len(c)
 	// truncations
-	if thorough || n <= 700 {
+	if (thorough && n <= 3000) || n <= 700 {
 		for k := 0; k < n; k++ {
 			out = append(out, damage{fmt.Sprintf("truncate:%d", k), c[:k]})
 		}
@@ -153,7 +153,7 @@ func damagesOf(c []byte, thorough bool, rng *RNG) []damage {
 		d[byteIdx] ^= 1 << uint(bit)
 		out = append(out, damage{fmt.Sprintf("bitflip:%d.%d", byteIdx, bit), d})
 	}
-	if thorough || n <= 300 {
+	if (thorough && n <= 1200) || n <= 300 {
 		for i := 0; i < n; i++ {
 			for b := 0; b < 8; b++ {
 				flip(i, b)
@@ -182,7 +182,11 @@ func damagesOf(c []byte, thorough bool, rng *RNG) []damage {
 				flip(i, b)
 			}
 		}
-		for k := 0; k < 40; k++ {
+		nflip := 40
+		if thorough {
+			nflip = 1500
+		}
+		for k := 0; k < nflip; k++ {
 			flip(int(rng.Next()%uint64(n)), int(rng.Next()%8))
 		}
 	}
@@ -336,6 +340,9 @@ func snapPostRun(r *Run, res *Result) {
 		ds := damagesOf(op.Data, thorough, rng)
 		bound := uint64(64*dirSize(after) + 16<<20)
 		for di, d := range ds {
+			if overTime(res) {
+				break
+			}
 			files := cloneFiles(after)
 			files[name] = d.data
 			for _, mm := range []bool{true, false} {
